@@ -3,7 +3,7 @@
    the paragraphs of a rendered document are) and the per-kind decoder theorems (lists, versions, dependencies) this
    is the statement "the typed parser returns exactly the model", factored at the paragraph. *)
 From Coq Require Import List Ascii String Bool Arith Lia.
-Require Import GS R2 R2u SchemaDefs C9G CX.
+Require Import GS R2 R2u SchemaDefs C9G C9F CX.
 Import ListNotations.
 
 Lemma read_all_first x p ps : R2.read_all x = Some (p :: ps) -> exists rest, R2.next R2.empty_para [] (lines_of x) = R2.RPara p rest.
@@ -17,18 +17,18 @@ Qed.
 Theorem C10_text_pointwise_u sch text r :
   CX.decode_text sch text = Some r <->
   exists p rest, R2u.next_u R2.empty_para [] (lines_of text) = R2.RPara p rest /\
-                 Forall2 (C9G.field_spec CX.fd CX.cval CX.czero CX.cdecode (R2.values p)) (CX.gschema sch) r.
+                 Forall2 (C9F.field_spec_fold CX.fd CX.cval CX.czero CX.cdecode (R2.values p)) (CX.gschema sch) r.
 Proof.
   unfold CX.decode_text, CX.decode_para. split.
   - destruct (R2u.next_u R2.empty_para [] (lines_of text)) as [p rest| |]; try discriminate.
-    intros E. exists p, rest. split; [reflexivity|]. now apply CX.CX_decode_pointwise.
-  - intros (p&rest&E&F). rewrite E. now apply CX.CX_decode_pointwise.
+    intros E. exists p, rest. split; [reflexivity|]. now apply CX.CX_decode_fold_pointwise.
+  - intros (p&rest&E&F). rewrite E. now apply CX.CX_decode_fold_pointwise.
 Qed.
 
 (* on text without non-ASCII Unicode space encodings, in terms of the reader of the C07 theorems *)
 Theorem C10_document sch text p ps r : Forall R2u.uclean (lines_of text) -> R2.read_all text = Some (p :: ps) ->
   (CX.decode_text sch text = Some r <->
-   Forall2 (C9G.field_spec CX.fd CX.cval CX.czero CX.cdecode (R2.values p)) (CX.gschema sch) r).
+   Forall2 (C9F.field_spec_fold CX.fd CX.cval CX.czero CX.cdecode (R2.values p)) (CX.gschema sch) r).
 Proof.
   intros U RA. destruct (read_all_first text p ps RA) as (rest&N).
   rewrite C10_text_pointwise_u. rewrite (R2u.next_u_clean _ _ _ U), N. split.
@@ -37,13 +37,13 @@ Proof.
 Qed.
 (* a required field that the first paragraph lacks makes the typed parser fail *)
 Theorem C10_required_field_missing sch text p ps f : Forall R2u.uclean (lines_of text) -> R2.read_all text = Some (p :: ps) ->
-  In f (CX.gschema sch) -> C9G.frequired CX.fd f = true -> C9G.lookup (C9G.fkey CX.fd f) (R2.values p) = None ->
+  In f (CX.gschema sch) -> C9G.frequired CX.fd f = true -> C9F.lookup_fold (C9G.fkey CX.fd f) (R2.values p) = None ->
   CX.decode_text sch text = None.
 Proof.
   intros U RA Hin Hr Hl. destruct (CX.decode_text sch text) as [r|] eqn:E; [|reflexivity]. exfalso.
   apply (C10_document sch text p ps r U RA) in E. clear RA U.
   induction E as [|g v gs vs Hs _ IH]; [contradiction|]. destruct Hin as [->|Hin]; [|now apply IH].
-  unfold C9G.field_spec in Hs. rewrite Hl in Hs. destruct Hs as [Hs _]. congruence.
+  unfold C9F.field_spec_fold in Hs. rewrite Hl in Hs. destruct Hs as [Hs _]. congruence.
 Qed.
 Print Assumptions C10_document.
 Print Assumptions C10_required_field_missing.
